@@ -171,6 +171,10 @@ func DoBatchWithOptions(ctx context.Context, op Operation, r DoBatchRing, keys [
 		err:  make(chan error, 1),
 	}
 	tracker.rpcsPending.Store(int32(len(itemTrackers)))
+	if len(itemTrackers) == 0 {
+		// No keys: nothing will ever report completion, so the batch is done already.
+		tracker.done <- struct{}{}
+	}
 
 	var wg sync.WaitGroup
 
